@@ -28,6 +28,12 @@ def regenerate(which=("consts",)):
             if rc != 0:
                 raise C.BuildError("Go -> inertness IR translation failed (sources do not type-check?):\n" + o)
             notes.append("AccessIR.lean regenerated from %s" % C.REPO)
+        if "footprint" in which:
+            os.makedirs(C.WORK, exist_ok=True)
+            rc, o = C.sh([exe, "footprint", C.REPO, os.path.join(gen, "Footprint.lean"), os.path.join(C.WORK, "footprint.json")], env=C.GOENV)
+            if rc != 0:
+                raise C.BuildError("extraction of the storage write footprint failed (sources do not type-check?):\n" + o)
+            notes.append("Footprint.lean regenerated from %s" % C.REPO)
         if "deploy" in which:
             rc, o = C.sh([exe, "deployfacts", C.REPO, os.path.join(gen, "DeployFacts.lean")], env=C.GOENV)
             if rc != 0:
@@ -37,4 +43,4 @@ def regenerate(which=("consts",)):
 
 
 if __name__ == "__main__":
-    print(regenerate(["consts", "access", "deploy"]))
+    print(regenerate(["consts", "access", "deploy", "footprint"]))
